@@ -301,11 +301,20 @@ func (P *Program) FindFunc(pkgPath, key, inst string) *ssa.Function {
 func (P *Program) ContractFor(fn *ssa.Function) *Contract {
 	pk := funcPkgPath(fn)
 	cf := P.Contracts[pk]
+	k := funcKey(fn)
 	if cf == nil {
+		// functions outside the repository: extern contracts stated by any contract file
+		for _, f := range P.Contracts {
+			if c := f.Externs[pk+"::"+k]; c != nil {
+				return c
+			}
+		}
 		return nil
 	}
-	k := funcKey(fn)
 	if c := cf.Funcs[k]; c != nil {
+		return c
+	}
+	if c := cf.Externs[pk+"::"+k]; c != nil {
 		return c
 	}
 	// strip type arguments
